@@ -450,9 +450,9 @@ def check_contacts(r, margin, stats):
         e1 = witness_err(t1, s1, R1, p1, q1, n)
         e2 = witness_err(t2, s2, R2, p2, q2, -n)
         tol = 3e-5 * scale
-        if pair == ("box", "box") and k != kmin:
-          # further multicontact points: clipped-polygon points of one face, the other witness is offset by the
-          # closest contact's penetration vector; the faces count as parallel within collision_gjk.FACE_TOL
+        if pair == ("box", "box"):  # every contact of the pair: they share one dist, so "the closest one" is not identifiable
+          # multicontact (multiccd / face-aligned path): clipped-polygon points of one face, the other witness is
+          # offset by the EPA penetration vector shared by all points of the pair; the faces count as parallel within collision_gjk.FACE_TOL
           # (1.6 mrad), so the witness may be off the other face by that angle times the polygon extent
           e1, e2 = max(sdf(t1, s1, R1.T @ (q1 - p1)), 0.0), max(sdf(t2, s2, R2.T @ (q2 - p2)), 0.0)
           tol += 0.0016 * 2.0 * float(max(np.linalg.norm(s1), np.linalg.norm(s2)))
@@ -1055,7 +1055,7 @@ def run(res):
     "the wrappers pass the geom's pose/size unchanged to the core functions and write dist/pos/make_frame(normal) (oracle only)",
     "GJK/EPA pairs: MuJoCo's own contact (same margin) is the reference where MuJoCo is in its distance (GJK) regime; EPA depths of curved shapes are only sanity-bounded",
     "MuJoCo convention kept for capsule multi-contacts: each contact is a sphere contact at a point of the capsule axis",
-    "box-box multicontact points beyond the closest one: witness allowed off the second face by FACE_TOL (1.6 mrad) x polygon extent, the alignment tolerance of collision_gjk.multicontact (MuJoCo itself places those points exactly midway with their own depth; observed difference 2.5e-4 in dist)",
+    "box-box (multiccd / face-aligned path, all contacts of the pair - they share one dist): witness allowed off the second face by FACE_TOL (1.6 mrad) x polygon extent, the alignment tolerance of collision_gjk.multicontact (MuJoCo itself places those points exactly midway with their own depth; observed difference 2.5e-4 in dist)",
     "sphere-capsule closed form: tolerance widened by the proved regulariser bound amplified by 1/|closest point - sphere centre| (recorded finding C20:closest_segment_point:regulariser)",
   ]
 
